@@ -28,7 +28,7 @@ CHECKS = {
          "Held on the (context, form, text) cases observed; all 32 ASCII punctuation characters seen per context.", "typographer off; contexts as listed in the property"),
  "C10": ("exploration", "set-inclusion monitor on token types vs enabled producers + on/off twins + option-route twins",
          "Held on the (configuration, input) pairs observed.", "producer map written from the documented rule list"),
- "C11": ("exploration", "history monitor: real Ruler driven in lock-step with a sequential model, compared after every call incl. raising ones; facade histories observed non-invasively with sys.monitoring",
+ "C11": ("exploration", "history monitor: real Ruler driven in lock-step with a sequential model, compared after every call incl. raising ones; facade histories observed non-invasively with sys.monitoring; duplicate built-in rule names judged by rendering against a duplicate-free reference set to the reported rules",
          "Held on the histories observed.", "model is permissive where the statement is silent (atomic or prefix effect of a raising call)"),
  "C12": ("exploration", "history monitor with two references (same-process twin, pristine pre-history panel) + module-state fingerprint",
          "Held on the API histories observed.", "twin = replay of configuration steps only"),
